@@ -58,6 +58,21 @@ template<class S,class Tg> void c07_inner(hx::Rec<S>& R){
   // positive definiteness: a^T W a >= lambda |a|^2 with lambda = 1 (every generator has Frobenius norm >= 1 and W is diagonal for all provided groups)
   R.le("posdef", a.coeffs().squaredNorm(), a.squaredWeightedNorm());
 }
+// the inner product of a group does not depend on which other tangent types the process used before: every other tangent
+// type of the library (same scalar; in particular the ones with the same number of degrees of freedom) is used first
+template<class Own,class Other> struct touch_unless_same { static void run(){ (void)Other::InnerWeights(); } };
+template<class Own> struct touch_unless_same<Own,Own> { static void run(){} };
+template<class S,class Tg> void c07_inner_history(hx::Rec<S>& R){
+  typedef typename Tg::template T<S> T;
+  touch_unless_same<T,manif::RnTangent<S,1>>::run(); touch_unless_same<T,manif::RnTangent<S,3>>::run(); touch_unless_same<T,manif::RnTangent<S,5>>::run();
+  touch_unless_same<T,manif::RnTangent<S,6>>::run(); touch_unless_same<T,manif::RnTangent<S,9>>::run(); touch_unless_same<T,manif::RnTangent<S,10>>::run();
+  touch_unless_same<T,manif::SO2Tangent<S>>::run(); touch_unless_same<T,manif::SE2Tangent<S>>::run(); touch_unless_same<T,manif::SO3Tangent<S>>::run();
+  touch_unless_same<T,manif::SE3Tangent<S>>::run(); touch_unless_same<T,manif::SE_2_3Tangent<S>>::run(); touch_unless_same<T,manif::SGal3Tangent<S>>::run();
+  c07_inner<S,Tg>(R);
+}
+#ifdef HISTORY
+ENTRY_T(c07_inner_history, TAG)
+#else
 #define GENIDX(NAME, IDX, NOTE_) template<class S,class Tg> void c07_genidx_##NAME(hx::Rec<S>& R){ typedef typename Tg::template T<S> T; R.note(NOTE_,"1"); auto Gm=T::Generator(IDX); R.out("g00",Gm(0,0)); }
 GENIDX(m1, -1, "mustraise") GENIDX(dof, Tg::DoF, "mustraise") GENIDX(dofp1, Tg::DoF+1, "mustraise") GENIDX(intmax, 2147483647, "mustraise") GENIDX(intmin, (-2147483647-1), "mustraise") GENIDX(last, Tg::DoF-1, "noraise") GENIDX(first, 0, "noraise")
 ENTRY_T(c07_genidx_m1, TAG) ENTRY_T(c07_genidx_dof, TAG) ENTRY_T(c07_genidx_dofp1, TAG) ENTRY_T(c07_genidx_intmax, TAG) ENTRY_T(c07_genidx_intmin, TAG) ENTRY_T(c07_genidx_last, TAG) ENTRY_T(c07_genidx_first, TAG)
@@ -66,5 +81,6 @@ ENTRY_T(c07_generators, TAG)
 ENTRY_T(c07_hat, TAG)
 ENTRY_T(c07_bracket, TAG)
 ENTRY_T(c07_inner, TAG)
+#endif
 #endif
 HX_MAIN
